@@ -35,7 +35,6 @@ class CouplingSDE:
             self.fine_process = MarkovChainSDE(model=model, method=method, grid=grid)
 
         self._process_representation = self.fine_process.process_representation
-        self._spots = self.fine_process.deterministic_path(np.zeros(shape=1))
 
         if model.dimension_model() == 1:
             self.driver_coupling_process = CouplingMarkovChain(
@@ -151,7 +150,8 @@ class CouplingSDE:
         # the drift is directly dealt with in the simulation function, hence the following function for both the coarse
         # and fine processes:
         def _deterministic_path(_: np.array) -> np.array:
-            return self._spots
+            # the initial value of the model as it is now (the Euler increments are computed from the same value)
+            return self.fine_process.deterministic_path(np.zeros(shape=1))
 
         def coupling_deterministic_path(times):
             return np.array([_deterministic_path(times), _deterministic_path(times)])
